@@ -495,6 +495,9 @@ class Session:
     return self._tmp
 
   def cleanup(self):
+    for name in getattr(self, '_regmod_names', ()):
+      sys.modules.pop(name, None)
+    self._regmod_names = set()
     for sp in getattr(self, '_added_paths', []):
       if sp in sys.path:
         sys.path.remove(sp)
@@ -539,9 +542,29 @@ class Session:
       chain.append([fn, int(m.group(2))])
     return {'err': cls, 'chain': chain, 'msg': str(e)[:300]}
 
+  def write_regmods(self, regmods):
+    """Modules (on the Python path) whose body registers configurables: `import <name>` in a config text runs it."""
+    if not regmods:
+      return
+    import importlib
+    import gindom_hook
+    gindom_hook.current = self
+    self.regmods = dict(getattr(self, 'regmods', {}), **regmods)
+    d = self.tmpdir()
+    if d not in sys.path:
+      sys.path.insert(0, d)
+      self._added_paths = getattr(self, '_added_paths', []) + [d]
+    for name in regmods:
+      with open(os.path.join(d, name + '.py'), 'w') as f:
+        f.write('import gindom_hook\ngindom_hook.fire(__name__)\n')
+      self._regmod_names = getattr(self, '_regmod_names', set()) | {name}
+      sys.modules.pop(name, None)
+    importlib.invalidate_caches()
+
   def op_parse(self, op):
     gin = self.gin
     self.write_files(op.get('_files'))
+    self.write_regmods(op.get('_regmods'))
     skip = self.skip_arg(op['skip'])
     kw = {} if (op['skip']['k'] == 'no' and op.get('_default_skip', True)) else {'skip_unknown': skip}
     try:
@@ -661,6 +684,7 @@ class Session:
   def op_parsefiles(self, op):
     gin = self.gin
     self.write_files(op.get('_files'))
+    self.write_regmods(op.get('_regmods'))
     skip = self.skip_arg(op['skip'])
     kw = {}
     if op['skip']['k'] != 'no':
